@@ -158,8 +158,10 @@ def model_expected(drv, dump, fs, prec, zero, delim, skip):
                     if isf:
                         line.append(("%" + p + conv) % val)
                     else:
-                        if any(ch in p for ch in "+ #0"):
-                            line.append(None)      # python and C differ on flags of integer conversions: not compared
+                        if any(ch in p for ch in "+ #0") or (conv in "uxXo" and val < 0) or abs(val) >= 2.0 ** 63:
+                            # python and C differ on flags of integer conversions; a negative or huge interpolated value
+                            # converted to (u)int64_t is undefined in C: not compared
+                            line.append(None)
                         else:
                             line.append(("%" + p + {"i": "d", "u": "d", "x": "x", "X": "X", "o": "o"}[conv]) % int(val))
                 except (ValueError, OverflowError):
